@@ -151,3 +151,22 @@ def compact_len(kind, lo, hi):
     if lo > 0xffffffff:
         return 'TOOBIG'
     return None
+
+
+# int format family: (format, total encoded size, representable range) - spec 'int format family'
+INT_FORMATS = [
+    ('positive fixint', 1, 0, 0x7f), ('negative fixint', 1, -32, -1),
+    ('uint 8', 2, 0, 0xff), ('int 8', 2, -128, 127),
+    ('uint 16', 3, 0, 0xffff), ('int 16', 3, -32768, 32767),
+    ('uint 32', 5, 0, 0xffffffff), ('int 32', 5, -2147483648, 2147483647),
+    ('uint 64', 9, 0, 0xffffffffffffffff), ('int 64', 9, -9223372036854775808, 9223372036854775807),
+]
+
+
+def smallest_int_formats(lo, hi):
+    """all int formats of minimal encoded size able to hold every value of [lo, hi]"""
+    cands = [(size, name) for name, size, a, b in INT_FORMATS if lo >= a and hi <= b]
+    if not cands:
+        return []
+    m = min(c[0] for c in cands)
+    return [name for size, name in cands if size == m]
